@@ -320,6 +320,10 @@ def check_path(rep, f, t, names, n_t, s_t, cond_txt, subst_s, n_is_one, unknown_
         sumarg = unwrap_array(D[1][1])
     rep.check(sumarg is not None and sumarg == L, 'C17.R2', w, 'the divisor is the sum of the same list that is divided (so the weights sum to one, and one agent gets weight one) [%s]' % cond_txt,
               got=show(D)[:160], want='sum(<the weight list>)', construct='normalising divisor %s' % show(D)[:80])
+    if n_is_one and L[0] in ('list', 'tuple') and len(L[1]) == 1 and L[1][0][0] == 'const':
+        # the single-agent case written out: a literal one-element list
+        rep.check(L[1][0] in (C(1), C(1.0)), 'C17.R1', w, 'a single agent gets the un-normalised weight 1 [%s]' % cond_txt, got=show(L)[:120], construct='single-agent list')
+        return
     try:
         lm = ListModel(L, n_t)
     except Unknown as u:
